@@ -39,6 +39,8 @@ var PortAlpha = []*[]wm.APort{nil,
 	// entries without a protocol (default TCP) after entries of another protocol
 	ports(wm.APort{Kind: "num", Proto: "UDP", Num: 53}, wm.APort{Kind: "num", Num: 80}),
 	ports(wm.APort{Kind: "named", Name: "dns"}, wm.APort{Kind: "range", Num: 85, End: 100}),
+	// the list written out empty (ports: []): no port restriction, like the omitted field
+	ports(),
 	// a range of exactly one port, next to a wider one on another protocol
 	ports(wm.APort{Kind: "range", Proto: "TCP", Num: 80, End: 80}, wm.APort{Kind: "range", Proto: "UDP", Num: 53, End: 54}),
 }
